@@ -104,7 +104,9 @@ func (g *gen) scalar(fd pref.FieldDescriptor) pref.Value {
 func (g *gen) value(parent pref.Message, fd pref.FieldDescriptor, depth int) pref.Value {
 	if fd.Kind() == pref.MessageKind || fd.Kind() == pref.GroupKind {
 		var m pref.Message
-		if fd.IsList() {
+		if isDynamic(parent) {
+			m = newChild(fd.Message())
+		} else if fd.IsList() {
 			m = parent.NewField(fd).List().NewElement().Message()
 		} else if fd.IsMap() {
 			m = parent.NewField(fd).Map().NewValue().Message()
@@ -125,6 +127,9 @@ func (g *gen) mapValue(parent pref.Message, fd pref.FieldDescriptor, depth int) 
 	vd := fd.MapValue()
 	if vd.Kind() == pref.MessageKind {
 		m := parent.NewField(fd).Map().NewValue().Message()
+		if isDynamic(parent) {
+			m = newChild(vd.Message())
+		}
 		g.populate(m, depth-1)
 		return pref.ValueOfMessage(m)
 	}
@@ -373,6 +378,13 @@ func (g *gen) mutate(root pref.Message, depth int) string {
 				l.Set(i, floatValue(fd, g.nudgeFloat(l.Get(i).Float())))
 				return "list-elem-float"
 			}
+			if isMsg && isWellKnownTime(fd.Message()) && g.r.Intn(4) != 0 {
+				// the element itself is a Timestamp / Duration: move it by a recorded step
+				e := cloneValue(fd, l.Get(i)).Message()
+				g.nudgeTime(e)
+				l.Set(i, pref.ValueOfMessage(e))
+				return "list-elem-time"
+			}
 			l.Set(i, g.value(m, fd, depth))
 			return "list-elem"
 		}
@@ -402,6 +414,12 @@ func (g *gen) mutate(root pref.Message, depth int) string {
 				mp.Set(k, floatValue(fd.MapValue(), g.nudgeFloat(mp.Get(k).Float())))
 				return "map-value-float"
 			}
+			if vd := fd.MapValue(); vd.Message() != nil && isWellKnownTime(vd.Message()) && g.r.Intn(4) != 0 {
+				e := cloneValue(vd, mp.Get(k)).Message()
+				g.nudgeTime(e)
+				mp.Set(k, pref.ValueOfMessage(e))
+				return "map-value-time"
+			}
 			mp.Set(k, g.mapValue(m, fd, depth))
 			return "map-value"
 		}
@@ -409,7 +427,7 @@ func (g *gen) mutate(root pref.Message, depth int) string {
 		switch op := g.r.Intn(4); {
 		case !m.Has(fd):
 			if op == 0 {
-				m.Mutable(fd) // present but empty
+				m.Set(fd, pref.ValueOfMessage(emptyChild(m, fd))) // present but empty
 				return "msg-set-empty"
 			}
 			m.Set(fd, g.value(m, fd, depth))
@@ -418,7 +436,7 @@ func (g *gen) mutate(root pref.Message, depth int) string {
 			m.Clear(fd)
 			return "msg-clear"
 		case op == 1:
-			m.Set(fd, pref.ValueOfMessage(m.NewField(fd).Message())) // replace by empty
+			m.Set(fd, pref.ValueOfMessage(emptyChild(m, fd))) // replace by empty
 			return "msg-empty"
 		default:
 			sub := m.Mutable(fd).Message()
@@ -452,7 +470,7 @@ func (g *gen) mutate(root pref.Message, depth int) string {
 
 func cloneValue(fd pref.FieldDescriptor, v pref.Value) pref.Value {
 	if fd.Kind() == pref.MessageKind || fd.Kind() == pref.GroupKind {
-		return pref.ValueOfMessage(proto.Clone(v.Message().Interface()).ProtoReflect())
+		return pref.ValueOfMessage(cloneExact(v.Message().Interface()).ProtoReflect())
 	}
 	if fd.Kind() == pref.BytesKind {
 		return pref.ValueOfBytes(append([]byte(nil), v.Bytes()...))
